@@ -193,13 +193,13 @@ Proof. exact time_obs_parse. Qed.
 Print Assumptions C18_time_obs_parse.
 
 (* Observation, equal grids and the final time: the last stored level itself -- no interpolation --, then the
-   observation map, then squeeze. *)
+   observation map; no axis is dropped (one observed node stays a 1-vector; /repo 64a5926 and its follow-up). *)
 Theorem C18_observe_restriction :
   forall (Q : quirks) (obsmap : option (arr -> res arr)) (interp2 : qv -> qv -> list qv -> qv -> qv -> res qm)
          (G : grids) (times : qv) (T : Qc) (levels : list qv) (u : qv),
   g_eq G = true -> last_opt times = Some T -> last_opt levels = Some u ->
   td_observe Q obsmap interp2 G times [T] levels =
-    match apply_obsmap obsmap (A1 u) with Ok b => Ok (false, squeeze b) | Er e => Er e end.
+    match apply_obsmap obsmap (A1 u) with Ok b => Ok (false, b) | Er e => Er e end.
 Proof. exact observe_restriction. Qed.
 Print Assumptions C18_observe_restriction.
 
